@@ -153,6 +153,12 @@ namespace nrf52_details
 
     bool security_tool_box::is_valid_public_key( const std::uint8_t* public_key ) const
     {
+        // The two points with X == 0 are valid points, but uECC_shared_secret() is not able to multiply them (it
+        // reports an error and p256() would deliver an all zero DHKey). An honest peer generates such a key with
+        // a probability of 2^-255, so refusing it costs nothing.
+        if ( std::all_of( public_key, public_key + 32, []( std::uint8_t b ) { return b == 0; } ) )
+            return false;
+
         bluetoe::details::ecdh_public_key_t key;
         std::reverse_copy(public_key, public_key + 32, key.begin());
         std::reverse_copy(public_key + 32, public_key + 64, key.begin() + 32);
